@@ -37,9 +37,9 @@ META = {
     "text": "The documented suppression rules (id / file patterns with `*` `?` `**`, line, symbolName, inline comments on the same or "
             "the next code line, begin/end blocks, -file, -macro, `{` special case, text / XML / inline surface forms, exit-code "
             "suppressions never hide) are a declarative three-valued TLA+ definition (Suppress.tla). TLC enumerates the compatible sets "
-            "of <= 3 out of 89 suppression forms; seeded picks (form set x present findings x layout / syntax variants) are rendered by "
+            "of <= 3 out of 91 suppression forms (119 376 sets); seeded picks (form set x present findings x layout / syntax variants) are rendered by "
             "TLC into one project per surface form, the real binary is run on each, and TLC judges every decided finding of every run "
-            "and the equality of the surface forms; ~9e4 (suppression, finding) pairs go through SuppressionList::parseLine / "
+            "and the equality of the surface forms (deviations get a class computed by TLC from alternative readings); ~9e4 (suppression, finding) pairs go through SuppressionList::parseLine / "
             "addSuppression / isSuppressed in a unit harness and are judged by TLC; TLC checks the laws of the definition. Sampling "
             "a finite, completely enumerated case space is the right level: matching is a pure function of small inputs.",
     "ref": "DESIGN.md section 4 C23",
@@ -419,14 +419,19 @@ def main(tier, seed, replay=None):
     base = [f.result() for f in base_f]
     t_runs = None
     for k in range(len(chunks)):
+        tw = time.time()
         rendered = render_fs.pop(k).result()
+        tw = time.time() - tw
         if t_runs is None:
             t_runs = time.time()
             phase["render"] = t_runs - t0 - phase["build+gen"]
         if k + 2 < len(chunks) and time.time() < t_runs + 0.7 * budget:
             render_fs[k + 2] = bg.submit(tlc_render, work, chunks[k + 2], str(k + 2))
+        tr = time.time()
         obs = observe(meta, rendered, pool, t_runs + budget)
         rendered = rendered[:len(obs)]
+        phase.setdefault("chunks", []).append({"waited_for_render": round(tw, 1), "run_s": round(time.time() - tr, 1), "cases": len(obs),
+                                               "runs": sum(len(o["runs"]) for o in obs)})
         judge_fs.append((len(all_obs), bg.submit(tlc_judge, work, strip_obs(obs), base if k == 0 else [], ucases, None, str(k))))
         all_obs += obs
         all_rendered += rendered
@@ -443,7 +448,7 @@ def main(tier, seed, replay=None):
         verdicts = [x + y for x, y in zip(verdicts, j["verdicts"])]
     # a deviation that is not a known finding is reported only if an immediate re-run of the case reproduces it
     known_keys = vlib.known_findings(PID)
-    suspects = sorted(set(b["case"] for b in bad if b["class"] not in known_keys))[:60]
+    suspects = sorted(set(b["case"] for b in bad if b["class"] not in known_keys))[:24]
     not_reproduced = 0
     if suspects:
         again = observe(meta, [all_rendered[i - 1] for i in suspects], pool)
@@ -498,7 +503,7 @@ def main(tier, seed, replay=None):
            "finding_verdicts": {"must_report": verdicts[0], "must_hide": verdicts[1], "total": verdicts[2], "open": verdicts[2] - verdicts[0] - verdicts[1]},
            "unit": {"suppressions": unit[0], "bad_pairs": unit[1], "yes": unit[2], "no": unit[3], "open": unit[4], "isSuppressed_calls": ucalls},
            "laws_checked": laws, "bad_runs": len([b for b in bad if b["kind"] == "run"]), "bad_surface": len([b for b in bad if b["kind"] == "surface"]),
-           "deviation_classes": classes, "known_findings_hit": known, "not_reproduced_on_rerun": not_reproduced, "phase_s": {k: round(v, 1) for k, v in phase.items()},
+           "deviation_classes": classes, "known_findings_hit": known, "not_reproduced_on_rerun": not_reproduced, "phase_s": {k: (round(v, 1) if isinstance(v, float) else v) for k, v in phase.items()},
            "samples": [sample(all_obs[0]), sample(all_obs[len(all_obs) // 2]), sample(all_obs[-1])]}
     vlib.write_evidence(PID, tier, seed, "exploration", cov, time.time() - t0, violations=new,
                         assumptions=["findings are read from the --template output on stderr (baseline: --xml)",
